@@ -15,7 +15,7 @@ def check(ctx, rep):
     K.rule_get_addr(ctx, rep)
     S.rule_A1(ctx, rep, 'R3-A1')
     S.rule_A2_A3(ctx, rep)
-    S.rule_lock_discipline(ctx, rep, 'R3-D1')
+    S.rule_lock_discipline(ctx, rep, 'R3-D1', methods=('flush',))
     m = W.WriterModel(ctx, rep)
     if m.ok:
         W.rule_M9(m, rep)
